@@ -43,3 +43,16 @@ Definition shift_scenario : bool :=
 
 Theorem unchecked_lengths_accept_altered : shift_scenario = true.
 Proof. vm_compute. reflexivity. Qed.
+
+(* With the length check, at the SHA-256 instance the correspondence runs execute: every digest the verifier returns and
+   every child of every inner or partial node it hashes has exactly 32 bytes - for EVERY audit path the server sends and
+   every pruned tree.  (Structural: Base/Sha256Len.sha256_length; nothing is evaluated.) *)
+From QV Require Import Base.Sha256Len.
+
+Lemma Hsha_len32 (x : hin bytes bytes bytes) : len32 (Hsha x) = true.
+Proof. unfold len32, Hsha. rewrite sha256_length. reflexivity. Qed.
+
+Theorem checked_sha_inputs_wf (c : cache bytes) (o : op bytes) r tr :
+  interp_tr bytes bytes bytes Hsha (checked len32 c) o = Some (r, tr) ->
+  len32 r = true /\ Forall (fun x => wf_children bytes bytes bytes len32 x = true) tr.
+Proof. exact (checked_inputs_wf bytes bytes bytes Hsha len32 Hsha_len32 c o r tr). Qed.
